@@ -8,7 +8,7 @@ EXPLANATION = ('Value-flow normal forms of NUTSChain::step (doubling loop summar
                'of the U-turn criterion, compared line by line with Algorithm 6 of Hoffman & Gelman (2014) plus the property\'s divergence bound 1000 and the '
                'acceptance statistic (sum of min(1, exp(joint - joint0)) and count over the last doubling). Polymorphic bodies: all T, B, targets, step sizes, depths. '
                'Uniformity of the selected state (a probabilistic consequence of the weights) and numerical trajectories are not decided.')
-FLOORS = {'obligations': 35}   # counted on the reference tree; fewer instantiated obligations is reported, never passed silently
+FLOORS = {'obligations': 55}   # counted on the reference tree; fewer instantiated obligations is reported, never passed silently
 TECHNIQUE = 'value-flow normal form + loop summary + recursion summary (symbolic result tuples) vs specification table'
 ULG = 'distributions::GradientTarget::unnorm_logp_and_grad'
 HALF = T.div(T.ONE, N(2))
@@ -54,7 +54,22 @@ def locate(ctx):
     return bstep, rec
 
 
+def frame_rules(ctx):
+    from .. import frame
+    STEP, NEW, RUN, RP, SEED, SSEED = 'nuts::NUTSChain::step', 'nuts::NUTSChain::new', 'nuts::NUTSChain::run', 'nuts::NUTS::run_progress', 'nuts::NUTSChain::set_seed', 'nuts::NUTS::set_seed'
+    init = {NEW, RUN, RP}           # init_chain (private) is reached from NUTSChain::run and NUTS::run_progress
+    tab = {f: {NEW} for f in ('target', 'target_accept_p', 'gamma', 't_0', 'kappa', 'phantom_data')}
+    tab.update({'position': {NEW, STEP}, 'epsilon': init | {STEP}, 'epsilon_bar': {NEW, STEP}, 'h_bar': {NEW, STEP}, 'm': {NEW, STEP},
+                'mu': init, 'n_collect': init, 'n_discard': init, 'rng': init | {STEP, SEED, SSEED}})
+    frame.check_frame(ctx, 'C03', 'nuts::NUTSChain', tab,
+                      why='position, generator and adaptation state change only through the anchored step, the warm-up initialisation reached from run / run_progress, and the seeding API')
+    frame.check_frame(ctx, 'C03', 'nuts::NUTS', {'chains': {'nuts::NUTS::new', 'nuts::NUTS::run', RP, SSEED}},
+                      why='the runner only steps and re-seeds its chains')
+    frame.shadowing(ctx, 'C03', ['nuts::NUTSChain', 'nuts::NUTS'])
+
+
 def run(ctx):
+    frame_rules(ctx)
     bstep, rec = locate(ctx)
     if bstep is None or len(rec) != 1:
         ctx.unknown('C03.anchor', 'NUTSChain::step', 'anchor', why='need NUTSChain::step and exactly one self-recursive tree builder reachable from it (found %s)' % (None if rec is None else len(rec)))
